@@ -622,7 +622,108 @@ def _nrm_tri_orientation_dropped():
     TriangleBoundary.normal = normal
 
 
+def _law_circle_nosqrt():
+    import torch, numpy as np
+    from torchphysics.problem.domains.domain2D.circle import Circle
+    from torchphysics.problem.spaces import Points
+
+    def f(self, n=None, d=None, params=Points.empty(), device="cpu"):
+        if d:
+            n = self.compute_n_from_density(d, params)
+        c, r0 = self._compute_center_and_radius(params, device=device)
+        k = self.len_of_params(params)
+        r = torch.rand((k, n, 1)) * r0
+        phi = 2 * np.pi * torch.rand((k, n, 1))
+        pts = torch.cat((r * torch.cos(phi), r * torch.sin(phi)), dim=2) + c[:, None, :]
+        return Points(pts.reshape(-1, 2), self.space)
+    Circle.sample_random_uniform = f
+
+
+def _law_par_bd_equal_sides():
+    import torch
+    from torchphysics.problem.domains.domain2D.parallelogram import ParallelogramBoundary
+    old = ParallelogramBoundary._compute_side_length
+
+    def f(self, d1, d2):
+        s1, s2, tot = old(self, d1, d2)
+        m = (s1 + s2) / 2
+        return m, m, 4 * m            # every side equally likely, whatever its length
+    ParallelogramBoundary._compute_side_length = f
+
+
+def _law_tri_mirror_one_coord():
+    import torch
+    from torchphysics.problem.domains.domain2D.triangle import Triangle
+
+    def h(self, d, bary):
+        big = bary.sum(axis=2) >= 1
+        if d:
+            idx = torch.where(torch.logical_not(big))
+            return bary[idx][None, :]
+        idx = torch.where(big)
+        b = bary[idx]
+        bary[idx] = torch.stack((1.0 - b[:, 0], b[:, 1] * (1.0 - b[:, 0]) / torch.clamp(b[:, 1], min=1e-9) * b[:, 1] / 1.0), dim=1).clamp(0, 1) * 0 + torch.stack((1 - b[:, 0], (1 - b[:, 0]) * torch.rand(len(b))), dim=1) * 0 + torch.stack((1 - b[:, 0], b[:, 1] - (b[:, 0] + b[:, 1] - 1)), dim=1)
+        return bary
+    Triangle._handle_sum_greater_1 = h
+
+
+def _law_union_equal_weights():
+    import torch
+    from torchphysics.problem.domains.domainoperations.union import UnionDomain
+    from torchphysics.problem.spaces import Points
+
+    def f(self, n, params=Points.empty(), device="cpu"):
+        pa = self.domain_a.sample_random_uniform(n=n, params=params, device=device)
+        pb = self.domain_b.sample_random_uniform(n=n, params=params, device=device)
+        _, rp = self._repeat_params(n, params)
+        in_a = self.domain_a._contains(points=pb, params=rp)
+        pick = torch.logical_or(in_a, torch.rand((max(n, len(rp)), 1)) <= 0.5)
+        return Points(torch.where(pick, pa, pb), self.space)
+    UnionDomain._sample_random_with_n = f
+
+
+def _law_gauss_std():
+    import torch
+    from torchphysics.problem.samplers.random_samplers import GaussianSampler
+    old = GaussianSampler.__init__
+
+    def init(self, domain, n_points, mean, std):
+        old(self, domain, n_points, mean, std * 1.3)
+    GaussianSampler.__init__ = init
+
+
+def _law_lhs_noperm_shift():
+    import torch
+    from torchphysics.problem.samplers.random_samplers import LHSSampler
+
+    def f(self, bb, device):
+        pts = torch.zeros((self.n_points, self.domain.dim))
+        for i in range(self.domain.dim):
+            grid = torch.linspace(bb[2 * i], bb[2 * i + 1], steps=self.n_points + 1)[:-1]
+            length = bb[2 * i + 1] - bb[2 * i]
+            shift = length / self.n_points * torch.rand(self.n_points) * 1.6       # may spill into the next slab
+            pts[:, i] = (grid + shift)[torch.randperm(self.n_points)]
+        return pts
+    LHSSampler._create_lhs_in_bounding_box = f
+
+
+def _law_grid_half():
+    import torch
+    from torchphysics.problem.domains.domain2D.parallelogram import Parallelogram
+
+    def f(self, n, d1, d2, device):
+        s1, s2 = torch.linalg.norm(d1, dim=1), torch.linalg.norm(d2, dim=1)
+        n1, n2 = int(torch.sqrt(n * s1 / s2)), int(torch.sqrt(n * s2 / s1))
+        x = torch.linspace(0, 0.6, n1 + 2)[1:-1]                 # grid squeezed into a part of the shape
+        y = torch.linspace(0, 1, n2 + 2)[1:-1]
+        return torch.permute(torch.stack(torch.meshgrid((x, y))), (2, 1, 0)).reshape(-1, 2)
+    Parallelogram._compute_barycentric_grid = f
+
+
 REGISTRY = {
+    "law_circle_nosqrt": _law_circle_nosqrt, "law_par_bd_equal_sides": _law_par_bd_equal_sides,
+    "law_union_equal_weights": _law_union_equal_weights, "law_gauss_std": _law_gauss_std,
+    "law_lhs_spill": _law_lhs_noperm_shift, "law_grid_squeezed": _law_grid_half,
     "nrm_par_flip": _nrm_par_flip, "nrm_cut_noflip": _nrm_cut_noflip, "nrm_union_wrong_operand": _nrm_union_wrong_operand,
     "nrm_circle_unnormalised": _nrm_circle_unnormalised, "nrm_tri_orientation_dropped": _nrm_tri_orientation_dropped,
     "rows_repeat_tile": _rows_repeat_tile, "rows_prod_outer": _rows_prod_outer, "rows_cut_n_plus_1": _rows_cut_n_plus_1,
@@ -647,6 +748,7 @@ REGISTRY = {
     "dl_target_perm": _dl_target_perm, "dl_len_floor": _dl_len_floor, "dl_agg_global_mean": _dl_agg_sum,
 }
 BY_PROPERTY = {
+    "C11": ["law_circle_nosqrt", "law_par_bd_equal_sides", "law_union_equal_weights", "law_gauss_std", "law_lhs_spill", "law_grid_squeezed"],
     "C06": ["nrm_par_flip", "nrm_cut_noflip", "nrm_union_wrong_operand", "nrm_circle_unnormalised", "nrm_tri_orientation_dropped"],
     "C02": ["rows_repeat_tile", "rows_prod_outer", "rows_cut_n_plus_1", "rows_len_stale", "rows_grid_dep_first_row"],
     "C17": ["pe_circle_radius_kept", "pe_nv_left_only", "pe_product_keeps_vars", "pe_translate_inner_unbound", "pe_mutates_original"],
